@@ -188,6 +188,45 @@ def decOracle (j : Json) : Except String Oracle := do
       | some l => .ok l
       | none => .error (.oracleMiss "opcodes") }
 
+def decIgnVal : Json → Except String IgnVal
+  | .bool true => pure .yes
+  | .bool false => pure .no
+  | j => do pure (.keys (← strList j))
+
+def decCall (j : Json) : Except String Call := do
+  let t ← j.getObjValAs? String "t"
+  match t with
+  | "diff" => do
+      let a ← decJ (j.getObjValD "a")
+      let b ← decJ (j.getObjValD "b")
+      let O ← decOracle (j.getObjValD "memo")
+      pure (.diff O a b)
+  | "other" => pure .other
+  | "reset" => pure .reset
+  | "ignores" =>
+      match j.getObjVal? "m" with
+      | .ok (.arr xs) => do
+          let m ← xs.toList.mapM (fun kv => match kv with
+            | .arr #[.str k, v] => do pure (k, ← decIgnVal v)
+            | _ => throw "bad ignores entry")
+          pure (.ignores m)
+      | _ => throw "ignores.m"
+  | "targets" =>
+      match j.getObjVal? "flags" with
+      | .ok (.arr #[.bool s, .bool o, .bool a, .bool m, .bool i, .bool d]) => pure (.targets ⟨s, o, a, m, i, d⟩)
+      | _ => throw "targets.flags"
+  | _ => throw s!"bad call {t}"
+
+def runHist (calls : List Call) : List Json :=
+  let rec go (st : HState) : List Call → List Json
+    | [] => []
+    | c :: cs =>
+        let (r, st') := step st c
+        (match r with
+         | none => Json.null
+         | some res => reply res encDiff) :: go st' cs
+  go .init calls
+
 def handle (req : Json) : Except String Json := do
   let cmd ← req.getObjValAs? String "cmd"
   match cmd with
@@ -195,6 +234,12 @@ def handle (req : Json) : Except String Json := do
       let doc ← decJ (req.getObjValD "doc")
       let d ← decDiff (req.getObjValD "diff")
       pure (reply (patch doc d) encJ)
+  | "hist" =>
+      match req.getObjVal? "calls" with
+      | .ok (.arr xs) => do
+          let calls ← xs.toList.mapM decCall
+          pure (Json.mkObj [("ok", .arr (runHist calls).toArray)])
+      | _ => throw "hist.calls"
   | "wf" => do
       let doc ← decJ (req.getObjValD "doc")
       let d ← decDiff (req.getObjValD "diff")
